@@ -8,6 +8,7 @@ from .lib import SLOT, Ctx, dominated_by_completion
 from . import shared as S
 from . import spawner as SP
 from .shared import expr_role
+from .lifecycle import check_lifecycle
 
 
 def check(ctx: Ctx) -> None:
@@ -19,6 +20,9 @@ def check(ctx: Ctx) -> None:
     r_map_end_wrapper(ctx, "R05.4")
     SP.r_unreachable_lock_raise(ctx, "R05.6")
     S.r_wiring(ctx, "R05.w", {"ITER", "STARS", "NCONC", "FUNC", "GROUP", "END", "CANCEL", "MAPSEM"}, 20, "map roles")
+    rep.rule("R05.7", "work-conserving: the map-concurrency slot comes back only through the task's end callback, so that callback must begin "
+                      "exactly once on every way a task can end - return, exception, cancellation (life-cycle typestate, shared with C03)")
+    check_lifecycle(ctx, "R05.7", {"end"})
     S.r_handoff(ctx, "R02.1")
 
 
